@@ -667,6 +667,12 @@ fn judge(
                 if matches!(out.result, InvResult::Success(_)) && exp != got {
                     rep.violation("runset-differs", &format!("targets {:?}: started {:?}, model predicts {:?}", inv.targets, got, exp), case_json(case, proj, inv, Some(out)));
                 }
+                // an acyclic graph and known targets: the closure is brought up to date, not refused
+                if let InvResult::Error(e) = &out.result {
+                    if cfg.undeclared_pool.is_none() {
+                        rep.violation("closure-refused", &format!("targets {:?}: nothing wrong with the request, but n2 reports {:?}", inv.targets, e), case_json(case, proj, inv, Some(out)));
+                    }
+                }
             }
         }
         "C19" => {}
